@@ -498,6 +498,16 @@ def regex_of(db, call, modname=None):
             comp = None
     elif isinstance(recv, ast.Call) and dotted(recv.func) == "re.compile":
         comp = recv
+    elif isinstance(recv, ast.Attribute) and isinstance(recv.value, ast.Name) and modname:
+        # self.X / cls.X / Class.X bound at class level
+        found = []
+        for c_ in ast.walk(db.mod(modname).tree):
+            if isinstance(c_, ast.ClassDef) and (recv.value.id in ("self", "cls") or recv.value.id == c_.name):
+                for s_ in c_.body:
+                    if isinstance(s_, ast.Assign) and any(isinstance(t_, ast.Name) and t_.id == recv.attr for t_ in s_.targets):
+                        found.append(s_.value)
+        if len(found) == 1:
+            comp = found[0]
     if isinstance(comp, ast.Call) and dotted(comp.func) == "re.compile" and comp.args:
         fl = comp.args[1] if len(comp.args) > 1 else None
         for k in comp.keywords:
